@@ -331,3 +331,38 @@ def positive_term(den, pc, depth=0):
             if cc is c:
                 return positive_term(a if pol else b, pc, depth + 1)
     return False
+
+
+def linear_form(t, depth=0):
+    """Flatten +, -, unary minus and constant multiples into {atom term id: (coef, atom)}."""
+    out = {}
+
+    def add(x, c):
+        if x.op == "bin" and x.a[0] == "+":
+            add(x.a[1], c)
+            add(x.a[2], c)
+        elif x.op == "bin" and x.a[0] == "-":
+            add(x.a[1], c)
+            add(x.a[2], -c)
+        elif x.op == "un" and x.a[0] == "-":
+            add(x.a[1], -c)
+        elif x.op == "bin" and x.a[0] == "*" and _num(x.a[1]) is not None:
+            add(x.a[2], c * _num(x.a[1]))
+        elif x.op == "bin" and x.a[0] == "*" and _num(x.a[2]) is not None:
+            add(x.a[1], c * _num(x.a[2]))
+        else:
+            k = x.id
+            cur = out.get(k, (0.0, x))
+            out[k] = (cur[0] + c, x)
+
+    add(t, 1.0)
+    return {k: v for k, v in out.items() if abs(v[0]) > 1e-12}
+
+
+def linear_sum(forms):
+    tot = {}
+    for f in forms:
+        for k, (c, x) in f.items():
+            cur = tot.get(k, (0.0, x))
+            tot[k] = (cur[0] + c, x)
+    return {k: v for k, v in tot.items() if abs(v[0]) > 1e-12}
